@@ -62,6 +62,11 @@ def name_ok(name, style):
     return True
 
 
+# texts longer than the block a transport reads at once (1 KiB), in 2-, 3- and 4-byte characters at every alignment
+big_text = st.tuples(st.integers(0, 3), st.sampled_from([400, 1000, 1020, 2040, 3070]), st.sampled_from(["é", "€", "😀", "x"])).map(
+    lambda t: "a" * t[0] + t[2] * t[1])
+
+
 @st.composite
 def call_specs(draw, jsonclass):
     values = gen.json_values(8, forbid_jsonclass=jsonclass)
@@ -80,7 +85,9 @@ def call_specs(draw, jsonclass):
         keys = keys.filter(lambda k: k != "self" and (not jsonclass or k != "__jsonclass__"))
         params = draw(st.dictionaries(keys, values, max_size=4))
     result = draw(gen.pick(values, values, st.sampled_from([None, 0, 0.0, -0.0, False, "", [], {}, 2 ** 53, -(2 ** 53), 5e-324, 1e308]),
-                            st.sampled_from(reqgen.LOOKALIKES)))
+                            st.sampled_from(reqgen.LOOKALIKES), big_text))
+    if isinstance(params, list) and draw(st.integers(0, 11)) == 0:
+        params = params[:2] + [draw(big_text)]
     if draw(st.integers(0, 9)) == 0:
         # arguments shaped like the protocol's own messages
         la = draw(st.sampled_from(reqgen.LOOKALIKES))
@@ -286,7 +293,14 @@ def oracle_loopback(case):
     box = {}
 
     def make_proxy(ccfg, history):
-        box["tr"] = DispatcherTransport(ccfg, disp)
+        # one case in three goes through the real Transport code in both directions (request bytes written by
+        # send_content, the reply framed as HTTP and read back by parse_response in its own block size)
+        pick = len(repr(case["calls"][0]["params"])) + len(case["calls"])
+        if pick % 3 == 0:
+            from vlib.loopback import WireDispatcherTransport, FRAMINGS
+            box["tr"] = WireDispatcherTransport(ccfg, disp, framing=FRAMINGS[pick % len(FRAMINGS)])
+        else:
+            box["tr"] = DispatcherTransport(ccfg, disp)
         return J.ServerProxy("http://loopback/", transport=box["tr"], config=ccfg, version=case["version"], history=history)
 
     # the callables are registered one by one as functions, or live on one registered instance
@@ -564,6 +578,102 @@ def oracle_reuse(case):
                 sample={"prefix": case["prefix"], "leaves": case["leaves"], "steps": [(s_["via"], s_["leaf"]) for s_ in case["steps"]]})
 
 
+@st.composite
+def keepalive_cases(draw):
+    values = gen.pick(gen.json_values(4), gen.json_values(4), big_text)
+    names = draw(st.lists(gen.pick(ident, st.lists(ident, min_size=2, max_size=3).map(".".join)), min_size=1, max_size=3, unique=True))
+    steps = []
+    for _ in range(draw(st.integers(2, 6))):
+        steps.append({"name": draw(st.integers(0, len(names) - 1)), "how": draw(st.sampled_from(["call", "call", "call", "notify", "batch", "failing"])),
+                      "params": draw(gen.pick(st.lists(values, max_size=2), st.dictionaries(st.sampled_from(["a", "b"]), values, max_size=2))),
+                      "result": draw(values)})
+    return {"names": names, "steps": steps, "version": draw(st.sampled_from([1.0, 2.0])), "server": draw(st.integers(0, 3))}
+
+
+def oracle_keepalive(case):
+    """Several exchanges on one connection: a server whose handler speaks HTTP/1.1 keeps the connection of a proxy open,
+    and every call made through that proxy - the first as well as the fifth - reaches its callable exactly once with its
+    own arguments and returns its own value"""
+    from jsonrpclib import jsonrpc as J
+    from jsonrpclib.config import Config
+    from jsonrpclib.history import History
+
+    for n in case["names"]:
+        if not name_ok(n, "chain") or not name_ok(n, "batch-chain"):
+            raise Skip()
+    h = _farm[0].get_keepalive(case["server"])
+    srv = h.server
+    srv.json_config = Config(version=2.0)
+    h.take_exchanges()
+    log, current = [], {}
+    for n in case["names"]:
+        def target(*a, _n=n, **k):
+            log.append((_n, list(a), dict(k)))
+            if current.get("fail"):
+                raise ValueError("failing on purpose")
+            return current["result"]
+        srv.register_function(target, n)
+    ccfg = Config(version=case["version"])
+    history = History()
+    proxy = J.ServerProxy(h.url, config=ccfg, version=case["version"], history=history)
+    exchanges = 0
+    try:
+        for i, st_ in enumerate(case["steps"]):
+            name = case["names"][st_["name"]]
+            params = st_["params"]
+            current["result"], current["fail"] = st_["result"], st_["how"] == "failing"
+            before = len(log)
+            how = st_["how"]
+
+            def walk(obj):
+                for seg in name.split("."):
+                    obj = getattr(obj, seg)
+                return obj
+            try:
+                if how == "batch":
+                    mc = J.MultiCall(proxy, ccfg)
+                    m = walk(mc)
+                    m(**params) if isinstance(params, dict) else m(*params)
+                    got = list(mc())
+                    got = got[0] if len(got) == 1 else fail("C01/batch-result", "step %d: a batch of one call gave %r" % (i, got))
+                else:
+                    m = walk(proxy._notify if how == "notify" else proxy)
+                    got = m(**params) if isinstance(params, dict) else m(*params)
+                if how == "failing":
+                    fail("C01/failure-not-reported", "step %d: the call returned %r although the callable raised" % (i, got))
+            except J.ProtocolError as ex:
+                if how != "failing":
+                    fail("C01/call-raised:ProtocolError", "step %d (%s on a kept-alive connection) raised %r" % (i, how, ex))
+            except Violation:
+                raise
+            except Exception as ex:
+                fail("C01/call-raised:%s" % type(ex).__name__, "step %d (%s of %s, exchange number %d on this connection) raised %s: %s" % (
+                    i, how, name, exchanges + 1, type(ex).__name__, str(ex)[:200]))
+            exchanges += 1
+            p = gen.norm(params)
+            want = (name, p if isinstance(p, list) else [], p if isinstance(p, dict) else {})
+            new = [(n, gen.norm(a), gen.norm(k)) for n, a, k in log[before:]]
+            if len(new) != 1 or new[0][0] != want[0] or not gen.strict_eq(new[0][1], want[1]) or not gen.strict_eq(new[0][2], want[2]):
+                fail("C01/invocations", "step %d: exchange number %d on one connection invoked %r, expected exactly %r" % (i, exchanges, new[:3], want))
+            if how in ("call", "batch") and not gen.strict_eq(got, gen.norm(st_["result"])):
+                fail("C01/result", "step %d: exchange number %d returned %r, expected %r" % (i, exchanges, got, st_["result"]))
+            if how == "notify" and got is not None:
+                fail("C01/notify-result", "step %d: notification returned %r" % (i, got))
+        seen = h.take_exchanges()
+        if [r for r, _ in seen] != history.requests or [r for _, r in seen] != history.responses or len(seen) != exchanges:
+            fail("C01/history-requests", "after %d exchanges on one connection the History holds %d requests / %d responses and the server saw %d" % (
+                exchanges, len(history.requests), len(history.responses), len(seen)))
+    finally:
+        for n in case["names"]:
+            srv.funcs.pop(n, None)
+        try:
+            proxy("close")()
+        except Exception:
+            pass
+    return Info(nt=len(case["steps"]) >= 3, classes=["keepalive", "transport:" + h.label, "v%.1f" % case["version"], "exchanges:%d" % min(len(case["steps"]), 5)],
+                sample={"names": case["names"], "steps": [(s_["how"], s_["name"]) for s_ in case["steps"]], "server": h.label})
+
+
 SUBS = [
     Sub("loopback", oracle_loopback, strategy=lambda tier: cases(False),
         budget={"quick": 8000, "thorough": 150000}, shards={"quick": 12, "thorough": 16},
@@ -575,6 +685,10 @@ SUBS = [
     Sub("reuse", oracle_reuse, strategy=lambda tier: reuse_cases(),
         budget={"quick": 2500, "thorough": 40000}, shards={"quick": 4, "thorough": 8},
         what="sequences of calls on one proxy through objects the caller keeps (namespace, bound method, _notify accessor, MultiCall), History accumulating"),
+    Sub("sockets-keepalive", oracle_keepalive, strategy=lambda tier: keepalive_cases(), setup=farm_setup, teardown=farm_teardown,
+        budget={"quick": 600, "thorough": 10000}, shards={"quick": 4, "thorough": 8},
+        time_cap={"quick": 100, "thorough": 1500},
+        what="sequences of calls, notifications, batches and failing calls through one proxy whose connection a HTTP/1.1 server keeps alive (TCP and Unix, plain and pooled)"),
     Sub("sockets", oracle_sockets, strategy=lambda tier: cases(True), setup=farm_setup, teardown=farm_teardown,
         budget={"quick": 1200, "thorough": 20000}, shards={"quick": 4, "thorough": 8},
         time_cap={"quick": 100, "thorough": 1500},
